@@ -14,6 +14,7 @@ structure St where
   chains : List Chain := []
   maps : MapsState := {}
   nftChains : List Chain := []
+  epm : EpmState := {}
 
 def hexVal (c : Char) : Option Nat :=
   if '0' ≤ c ∧ c ≤ '9' then some (c.toNat - 48)
@@ -45,6 +46,11 @@ def showChains (dp : Dataplane) (cs : List Chain) : String :=
 
 def showMap (m : List (Bytes × String)) : String :=
   ",".intercalate (m.map fun kv => s!"{escBytes kv.1}=goto {kv.2}")
+
+/-- which interfaces carry host endpoint chains: the claimed existing interfaces, plus `*` -/
+def epmOut (st : St) : St × String :=
+  let l := (st.epm.names.map escBytes ++ (if st.epm.wild then ["*"] else [])).mergeSort (fun a b => decide (a ≤ b))
+  (st, if l.isEmpty then "heps=-" else "heps=" ++ ",".intercalate l)
 
 def step (st : St) (line : String) : St × String :=
   match words line with
@@ -96,6 +102,28 @@ def step (st : St) (line : String) : St × String :=
       let f := evalChain st.maps.env st.nftChains pkt 8 chainFromWl 0
       let t := evalChain st.maps.env st.nftChains pkt 8 chainToWl 0
       (st, s!"from={showResult f} to={showResult t}")
+  | ["epm-new"] => ({ st with epm := {} }, "ok")
+  | ["epm-hep", id, name, _pols] =>
+    let nm? : Option (Option Bytes) := if name = "*" then some none else (parseName name).map some
+    match nm? with
+    | some nm => epmOut { st with epm := st.epm.setHep id nm }
+    | none => (st, "bad-op")
+  | ["epm-hep-rm", id] => epmOut { st with epm := st.epm.rmHep id }
+  | ["epm-iface", n, p] =>
+    match parseName n with
+    | some n => epmOut { st with epm := st.epm.setIface n (p = "1") }
+    | none => (st, "bad-op")
+  | ["epm-pol", _, _] => epmOut st
+  | ["epm-pol-rm", _] => epmOut st
+  | ["epm-probe", n] =>
+    match parseName n with
+    | none => (st, "bad-op")
+    | some n =>
+      let pkt : Packet := { inIface := n, outIface := n }
+      let ev (cs : Option (List Chain)) (root : String) : String :=
+        showResult (evalChain { dp := .ipt } (cs.getD []) pkt 8 root 0)
+      let f := st.epm.filterDispatch
+      (st, s!"f={ev f "cali-from-host-endpoint"} t={ev f "cali-to-host-endpoint"} ff={ev f "cali-from-hep-forward"} tf={ev f "cali-to-hep-forward"} mt={ev st.epm.mangleDispatch "cali-to-host-endpoint"}")
   | ["probe", chain, i, o] =>
     match parseName i, parseName o with
     | some i, some o =>
